@@ -12,6 +12,11 @@ Obligations (all generated from the real source on every run):
 (c) NUMBERING discipline of every image counter (AST path counting);
 (d) BYTES DATAFLOW from the container read to the image object, content type from the extension table;
 (e) VIEWS COINCIDE in data_types.py (symbolic lists of symbolic lists, invariants over the yielded prefix).
+
+Round 5: the content-type claim includes the body of the module's content-type helper (`_ct_helper_body`); a key expression of a pure shape
+outside EXT_SHAPES is executed on EXT_CORPUS (bounded stand-in); helpers are read after normalisation (dict literal / `**kwargs` / parameter
+copies); `[*a, *b]` over sequence-valued lists is a concatenation (c14_exec); os.path string functions are total (c14_sites.TOTAL_CALLS);
+the replayer writes media part names with lower / UPPER / Capitalised extensions and builds units with text, blank text and no text.
 """
 import ast
 import os
@@ -795,6 +800,86 @@ def _unfollowed_mutation(ctor, num_kw, ck):
     return pred
 
 
+def _threaded_helper(ck, ctor, num_kw):
+    """`img, counter = helper(..., counter)`: the helper numbers the record itself and hands the counter back (every return is
+    `(record | None, counter)`).  Checked in the helper: on every path either no increment and None, or one increment and a record that
+    carries the counter after the increment; in the caller: the result is appended exactly when it is not None.  True when the shape is
+    present (obligations emitted), False otherwise."""
+    from contracts import c14_sites as SI
+    from contracts.c14_flow import reaching
+    fn = ck.raw_fn
+    if fn is None:
+        return False
+    pm = SI.parent_map(fn)
+    found = []
+    for n in ast.walk(fn):
+        if isinstance(n, ast.Assign) and len(n.targets) == 1 and isinstance(n.targets[0], ast.Tuple) and len(n.targets[0].elts) == 2 \
+                and all(isinstance(e, ast.Name) for e in n.targets[0].elts) and isinstance(n.value, ast.Call) and isinstance(n.value.func, ast.Name):
+            h = ck.mod.functions.get(n.value.func.id)
+            if h is None or not _constructs(ctor)(h):
+                continue
+            img, cnt = n.targets[0].elts[0].id, n.targets[0].elts[1].id
+            params = [a.arg for a in h.args.args + h.args.kwonlyargs]
+            passed = [p_ for p_ in params if (_arg_for_any(h, n.value, p_) is not None and isinstance(_arg_for_any(h, n.value, p_), ast.Name) and _arg_for_any(h, n.value, p_).id == cnt)]
+            if len(passed) != 1:
+                continue
+            found.append((n, h, img, cnt, passed[0]))
+    if not found:
+        return False
+    bad_step, bad_num, bad_guard = [], [], []
+    counter = found[0][3]
+    for (asg, h, img, cnt, p_) in found:
+        hk = SI.Checker("C14", ck.rel, h.name, ck.mod.repo, inline=False)
+        hpm = hk.pm
+        rets = [r for r in ast.walk(h) if isinstance(r, ast.Return)]
+
+        def ret_kind(r):
+            v = r.value
+            if not (isinstance(v, ast.Tuple) and len(v.elts) == 2 and isinstance(v.elts[1], ast.Name) and v.elts[1].id == p_):
+                return "other"
+            e = v.elts[0]
+            if isinstance(e, ast.Constant) and e.value is None:
+                return "none"
+            c = _ctor_of_arg(hk, e, r, ctor)
+            if c is None:
+                return "other"
+            nv = SI.kwv(c, num_kw)
+            if not (isinstance(nv, ast.Name) and nv.id == p_):
+                return "unnumbered"
+            b = reaching(h, hpm, p_, c)
+            return "numbered" if b is not None and SI.is_inc(b.node, p_) else "stale"
+        kinds = {id(r): ret_kind(r) for r in rets}
+        hk.total |= {"_get_image_pixel_dimensions", "guess_content_type", "_get_content_type", ctor}
+        events = [lambda n_: SI.is_inc(n_, p_)] + [(lambda n_, k_=k_: isinstance(n_, ast.Return) and kinds.get(id(n_)) == k_) for k_ in ("numbered", "none", "unnumbered", "stale", "other")]
+        for (vec, status) in SI.paths2(h.body, events, hk.total):
+            inc, num, non, unn, stale, other = vec
+            if status != "return":
+                bad_step.append(f"{h.name}: a path ends without returning (record, counter)")
+            elif other:
+                return False          # a return of another shape: not this style
+            elif unn:
+                bad_step.append(f"{h.name}: a path returns a record without a number")
+            elif stale:
+                bad_num.append(f"{h.name}: a record carries the counter as it was before the increment")
+            elif (inc, num, non) not in ((1, 1, 0), (0, 0, 1)):
+                bad_step.append(f"{h.name}: a path has {inc} increment(s) and returns {'a record' if num else 'None'}")
+        apps = [a for a in ast.walk(fn) if isinstance(a, ast.Call) and isinstance(a.func, ast.Attribute) and a.func.attr == "append" and len(a.args) == 1
+                and isinstance(a.args[0], ast.Name) and a.args[0].id == img and reaching(fn, pm, img, a) is not None and reaching(fn, pm, img, a).node is asg]
+        if len(apps) != 1 or not _guarded_not_none(pm, SI.enclosing_stmt(pm, apps[0]), img):
+            bad_guard.append(f"line {LN(asg)}: the result of {h.name} is not appended exactly when it is not None")
+    ck.counter = counter
+    ck.add("numbering", "one-increment-per-numbered-image", not bad_step and not bad_guard, "; ".join(sorted(set(bad_step + bad_guard)))[:500], definite=False)
+    ck.add("numbering", "number-is-the-counter-after-its-increment", not bad_num, "; ".join(sorted(set(bad_num))), definite=False)
+    return True
+
+
+def _arg_for_any(h, call, pname):
+    params = [x.arg for x in h.args.args]
+    if pname in params and params.index(pname) < len(call.args):
+        return call.args[params.index(pname)]
+    return next((kw.value for kw in call.keywords if kw.arg == pname), None)
+
+
 def _counter_start(ck):
     """numbering#counter-starts-at-zero-once-per-document for the functions that own their counter (or number by len(list) + 1)"""
     if getattr(ck, "counter", None) is None and hasattr(ck, "len_numbering_start"):
@@ -906,6 +991,8 @@ def _common(ck, ctor, num_kw, payload_kw, reads, counter, sniff_total=True):
                 ck.counter = hs["counter"]
                 _helper_style_obligations(ck, hs, hname, ("number-is-the-counter-after-its-increment", "one-increment-per-numbered-image", None))
                 break
+    if hs is None and _threaded_helper(ck, ctor, num_kw):
+        return sites_after_numbering(ck, sites, payload_kw, reads)
     if hs is None and numbered and _len_numbering(ck, ctor, num_kw, numbered):
         return sites_after_numbering(ck, sites, payload_kw, reads)
     if hs is None:
@@ -1063,13 +1150,132 @@ EXT_SHAPES = ("{n}.rsplit('.', 1)[-1].lower()", "{n}.lower().rsplit('.', 1)[-1]"
               "{n}.split('.')[-1].lower()", "{n}.lower().split('.')[-1]", "{n}.lower().rpartition('.')[2]", "{n}.lower().rpartition('.')[-1]")
 
 
+EXT_CORPUS = ("word/media/image1.png", "word/media/IMG_0002.JPG", "media/Scan.Png", "ppt/media/a.b.JPEG", "xl/media.v2/pic.GIF", "Pictures/1000000000.bmp",
+              "x.BMP", "OEBPS/images/cover.page.Jpg", "image7.jpeg", "/word/media/image1.PNG", "../media/image2.Gif", "a/b.c/d.e.png", "./Pictures/p.jPeG")
+_STR_METHODS = {"rsplit", "split", "lower", "upper", "rpartition", "partition", "strip", "lstrip", "rstrip", "casefold", "removeprefix", "removesuffix",
+                "replace", "endswith", "startswith", "rfind", "find"}
+_PATH_FUNCS = {"posixpath.splitext", "posixpath.basename", "os.path.splitext", "os.path.basename"}
+
+
+def _ext_by_evaluation(e, n):
+    """BOUNDED stand-in for a key expression of a shape not in EXT_SHAPES: a pure string expression over the single name `n` (str methods,
+    posixpath / os.path splitext / basename, indexing, conditional expressions) is EXECUTED by CPython on a corpus of part names (lower / upper /
+    mixed-case extensions, several dots, dotted directories, relative and absolute references) and must give the lower-cased text after the last
+    dot each time.  -> True (agrees on the corpus) | False (differs) | None (not such an expression: nothing evaluated)."""
+    import os
+    import posixpath
+
+    def pure(x):
+        if isinstance(x, ast.Constant):
+            return isinstance(x.value, (str, int, type(None))) and not isinstance(x.value, bool) or isinstance(x.value, bool)
+        if isinstance(x, ast.Name):
+            return x.id == n and isinstance(x.ctx, ast.Load)
+        if isinstance(x, ast.Call):
+            if x.keywords and any(k.arg != "maxsplit" or not pure(k.value) for k in x.keywords):
+                return False
+            if dotted(x.func) in _PATH_FUNCS:
+                return all(pure(a) for a in x.args)
+            return isinstance(x.func, ast.Attribute) and x.func.attr in _STR_METHODS and pure(x.func.value) and all(pure(a) for a in x.args)
+        if isinstance(x, ast.Subscript):
+            return pure(x.value) and pure(x.slice)
+        if isinstance(x, ast.Slice):
+            return all(b is None or pure(b) for b in (x.lower, x.upper, x.step))
+        if isinstance(x, ast.UnaryOp) and isinstance(x.op, (ast.USub, ast.Not)):
+            return pure(x.operand)
+        if isinstance(x, ast.IfExp):
+            return pure(x.test) and pure(x.body) and pure(x.orelse)
+        if isinstance(x, ast.BoolOp):
+            return all(pure(v) for v in x.values)
+        if isinstance(x, ast.Compare):
+            return pure(x.left) and all(pure(c) for c in x.comparators) and all(isinstance(o, (ast.In, ast.NotIn, ast.Eq, ast.NotEq)) for o in x.ops)
+        if isinstance(x, ast.Tuple):
+            return all(pure(v) for v in x.elts)
+        return False
+    try:
+        if not pure(e) or not any(isinstance(x, ast.Name) and x.id == n for x in ast.walk(e)):
+            return None
+        code = compile(ast.fix_missing_locations(ast.Expression(body=ast.parse(ast.unparse(e), mode="eval").body)), "<key>", "eval")
+        for sample in EXT_CORPUS:
+            got = eval(code, {"__builtins__": {}, "posixpath": posixpath, "os": os}, {n: sample})      # noqa: S307 -- whitelisted pure expression
+            if got != sample.rsplit(".", 1)[-1].lower():
+                return False
+        return True
+    except Exception:  # noqa
+        return None
+
+
+def _ext_shape_of(e, n):
+    """expression e is the lower-cased text after the last dot of name n (optionally guarded by `if '.' in n else <constant>`)"""
+    if isinstance(e, ast.IfExp) and isinstance(e.orelse, ast.Constant) and ast.unparse(e.test).replace('"', "'") == f"'.' in {n}":
+        e = e.body
+    s = ast.unparse(e).replace('"', "'")
+    return any(s == sh.format(n=n) for sh in EXT_SHAPES)
+
+
+def _ct_helper_body(ck, helper):
+    """The content-type helper of a module (`_get_content_type(name)` / the shared ODF `guess_content_type(path)`): every return is the table
+    image of the lower-cased extension of its parameter, or `mimetypes.guess_type(<parameter>)[0] [or <constant>]` (assumed library model:
+    the mimetypes table maps the raster extensions case-insensitively).  -> None when recognised, "~bounded" when a key expression of another shape agreed with the specification on EXT_CORPUS, else the reason (`unknown`)."""
+    from contracts import c14_sites as SI
+    from contracts.c14_flow import reaching
+    try:
+        rel = ck.rel if helper in ck.mod.functions else EX + "open_office/_shared.py"
+        hk = SI.Checker("C14", rel, helper, ck.mod.repo, inline=False)
+        if hk.fn is None or len(hk.fn.args.args) != 1:
+            return f"content-type helper {helper} not found"
+        pn = hk.fn.args.args[0].arg
+        if any(isinstance(n, ast.Name) and isinstance(n.ctx, ast.Store) and n.id == pn for n in ast.walk(hk.fn)):
+            return f"{helper}: parameter re-bound"
+
+        def deref(v, at):
+            for _ in range(3):
+                if isinstance(v, ast.Name) and v.id != pn:
+                    b = reaching(hk.fn, hk.pm, v.id, at)
+                    if b is None or b.kind != "assign":
+                        return v
+                    v, at = b.value, b.node
+                else:
+                    break
+            return v
+        rets = [n for n in ast.walk(hk.fn) if isinstance(n, ast.Return)]
+        bounded = False
+        if not rets:
+            return f"{helper}: no return"
+        for r in rets:
+            v = deref(r.value, r) if r.value is not None else None
+            if v is None:
+                return f"{helper}: bare return"
+            key = None
+            if isinstance(v, ast.Call) and dotted(v.func) == "_CONTENT_TYPE_MAP.get" and v.args:
+                key = v.args[0]
+            elif isinstance(v, ast.Subscript) and dotted(v.value) == "_CONTENT_TYPE_MAP":
+                key = v.slice
+            if key is not None:
+                if not _ext_shape_of(deref(key, r), pn):
+                    if _ext_by_evaluation(deref(key, r), pn) is True:
+                        bounded = True
+                        continue
+                    return f"{helper}: key {ast.unparse(deref(key, r))[:60]}"
+                continue
+            g = v.values[0] if isinstance(v, ast.BoolOp) and isinstance(v.op, ast.Or) and len(v.values) == 2 and isinstance(v.values[1], ast.Constant) else v
+            g = deref(g, r)
+            if isinstance(g, ast.Subscript) and isinstance(g.slice, ast.Constant) and g.slice.value == 0 and isinstance(g.value, ast.Call) \
+                    and dotted(g.value.func) == "mimetypes.guess_type" and len(g.value.args) == 1 and not g.value.keywords \
+                    and isinstance(g.value.args[0], ast.Name) and g.value.args[0].id == pn:
+                continue
+            return f"{helper}: returns {ast.unparse(v)[:60]}"
+        return "~bounded" if bounded else None
+    except Exception as e:  # noqa  -- a shape this reader does not handle: unknown, the native sweep decides
+        return f"{helper}: shape not recognised ({type(e).__name__})"
+
+
 def _ct_from_extension(ck, sites, of_names, label="looked-up-by-the-lower-cased-extension"):
     """content_type= is `_CONTENT_TYPE_MAP.get(ext, ...)` / `_CONTENT_TYPE_MAP[ext]` with ext = the lower-cased text after the last dot of
     a name that (by data flow) holds the part name, or `_get_content_type(<such a name>)` / `guess_content_type(<such a name>)`.
     Anything else is `unknown`: the native sweep of content types decides."""
     from contracts import c14_sites as SI
     from contracts.c14_flow import reaching
-    bad, ok = [], 0
+    bad, ok, evaluated = [], 0, []
 
     def ext_of(e, at):
         s = ast.unparse(e).replace('"', "'")
@@ -1102,16 +1308,29 @@ def _ct_from_extension(ck, sites, of_names, label="looked-up-by-the-lower-cased-
             k, kat = deref(key, at)
             if ext_of(k, kat):
                 ok += 1
+            elif any(_names_the_part(ck, nm, kat) and _ext_by_evaluation(k, nm) is True for nm in sorted({x.id for x in ast.walk(k) if isinstance(x, ast.Name)})):
+                ok += 1
+                evaluated.append(f"line {LN(c)}: key {ast.unparse(k)[:60]}")
             else:
                 bad.append(f"line {LN(c)}: key {ast.unparse(k)[:60]}")
         elif isinstance(v, ast.Call) and dotted(v.func).split(".")[-1] in ("_get_content_type", "guess_content_type") and len(v.args) == 1 \
                 and isinstance(v.args[0], ast.Name) and _names_the_part(ck, v.args[0].id, at):
-            ok += 1
+            why = _ct_helper_body(ck, dotted(v.func).split(".")[-1])      # the helper's own body is part of the claim
+            if why is None:
+                ok += 1
+            elif why == "~bounded":
+                ok += 1
+                evaluated.append(f"line {LN(c)}: key expression of {dotted(v.func).split('.')[-1]}")
+            else:
+                bad.append(f"line {LN(c)}: {why}")
         else:
             bad.append(f"line {LN(c)}: content_type={ast.unparse(v)[:60]}")
     if bad or not ok:
         return ck.unknown("content-type", label, "; ".join(bad) or "no content_type= found")
     ck.add("content-type", label, True)
+    if evaluated:     # not proved: the key expression was executed on a corpus of part names (BOUNDED stand-in, DESIGN 2.8)
+        ck.obls[-1]["bounded"] = True
+        ck.obls[-1]["reason"] = f"key expression executed on {len(EXT_CORPUS)} part names, equals the lower-cased extension each time: " + "; ".join(evaluated)[:300]
 
 
 COMPLETENESS_FNS = {}
@@ -1392,7 +1611,16 @@ def _helper_style(ck, helper, fn=None):
     if len(calls) != 1:
         return None
     call = calls[0]
-    # which parameter of the helper becomes the stored number
+    # which parameter of the helper becomes the stored number: read on the normalised helper (keyword arguments handed over through a
+    # dict literal / `**kwargs`, copies of a parameter) -- the parameter list is the real one
+    try:
+        import copy as _copy
+        from contracts.c14_inline import propagate_param_copies
+        h2, _inl = inline_helpers(ck.mod, helper)
+        if h2 is not None and [a.arg for a in h2.args.args] == [a.arg for a in h.args.args]:
+            h = propagate_param_copies(_copy.deepcopy(h2))
+    except Exception:  # noqa  -- shape the normaliser does not handle: the helper as written
+        h = ck.mod.functions.get(helper)
     pnum = None
     for n in ast.walk(h):
         if isinstance(n, ast.Call) and isinstance(n.func, ast.Name):
@@ -1534,6 +1762,29 @@ def _pdf(ck):
     if not sites or len(pidx) != 1 or len(punit) != 1:
         return ck.unknown("unit", "image-carries-its-index-and-page", "the image helper does not store two of its parameters as number and unit")
     ck.add("unit", "image-carries-its-index-and-page", bool(unit_ok), "" if unit_ok else "the unit handed to the image helper is not the page parameter", definite=False)
+    # every image put on the page's list is a result of that helper call (no other producer: copies / cached records keep the number
+    # and page of another placement)
+    rets = {r.value.id for r in ast.walk(ck.fn) if isinstance(r, ast.Return) and isinstance(r.value, ast.Name)}
+    apps = [a for a in ast.walk(ck.fn) if isinstance(a, ast.Call) and isinstance(a.func, ast.Attribute) and a.func.attr in ("append", "extend", "insert")
+            and isinstance(a.func.value, ast.Name) and a.func.value.id in rets]
+    other = []
+    for a in apps:
+        v, at = (a.args[-1] if a.args else None), a
+        for _ in range(3):
+            if isinstance(v, ast.Name):
+                b = reaching(ck.fn, ck.pm, v.id, at)
+                if b is None or b.kind != "assign":
+                    v = None
+                    break
+                v, at = b.value, b.node
+            else:
+                break
+        if not (v is call):
+            other.append(f"line {LN(a)}: {ast.unparse(a)[:60]}")
+    if not apps:
+        ck.unknown("unit", "images-of-a-page-are-built-for-that-page", "no append to the returned list found")
+    else:
+        ck.add("unit", "images-of-a-page-are-built-for-that-page", not other, "a record from another source than the image helper is put on the page: " + "; ".join(other) if other else "", definite=False)
 
 
 # =====================================================================================
@@ -1954,7 +2205,8 @@ ASSUMPTIONS = ["JPEG: a stream that leaves the T.81 marker chain before a frame 
 BOUNDED = ["each recorded finding: behaviour OUTSIDE its exclusion is checked by a native sweep of 12 generated documents (replay/C14.py::exclusion_sweep), not proved",
            "refutations: every solver model is re-validated natively (grid of 8 base dirs x 15 targets for resolvers; generated PNG/GIF/BMP/JPEG files incl. fill "
            "bytes, 1-3 leading segments and 6000 random marker sequences for the sniffers; <= 3 elements x <= 2 images for the data_types views)",
-           "content-type obligations are syntactic (lookup of the lower-cased extension in the literal table); str.lower / mimetypes are not modelled"]
+           "content-type obligations are syntactic (lookup of the lower-cased extension in the literal table); str.lower / mimetypes are not modelled; "
+           "a key expression of another pure shape is executed by CPython on EXT_CORPUS (13 part names) and counted as bounded-ok, never as proved"]
 
 
 def known_findings(kf, violations, repo, tier):
@@ -1978,7 +2230,9 @@ def known_findings(kf, violations, repo, tier):
             res = {"reproduced": False, "note": str(e)}
         still = bool(res.get("reproduced"))
         outside = res.get("outside_exclusion")
-        covers = [f["obligation"]] if still and outside is None and f["obligation"] in vio_ids else []
+        import re as _re
+        fam = _re.sub(r"-\d+$", "", f["obligation"])
+        covers = [v for v in vio_ids if _re.sub(r"-\d+$", "", v) == fam] if still and outside is None else []
         return {"finding": f["id"], "still_fails": still, "line": f"{f['id']}: {f['what']}", "covers": covers, "exclusion": f.get("exclusion"),
                 "witness_replay": str(res.get("observed", res.get("note", "")))[:300],
                 "outside_exclusion": "nothing fails outside the exclusion (bounded native sweep)" if outside is None else str(outside)[:400]}
